@@ -937,7 +937,14 @@ impl Instructions<Code, Temporary, Immediate> for Backend {
         match temporary {
             Temporary::Register(register) => instructions.push(Code::MOVI(register, immediate)),
             Temporary::Spill(position) => {
-                instructions.push(Code::MOVIM(STACK, stack_offset(position), immediate));
+                // a move to memory only takes a sign-extended 32-bit immediate, so larger ones have to
+                // go through the scratch register
+                if i32::try_from(immediate.val).is_ok() {
+                    instructions.push(Code::MOVIM(STACK, stack_offset(position), immediate));
+                } else {
+                    instructions.push(Code::MOVI(TEMP, immediate));
+                    instructions.push(Code::MOVS(TEMP, STACK, stack_offset(position)));
+                }
             }
         }
     }
